@@ -14,6 +14,14 @@ def gen_cfg(tier, seed, mod, invariants, tickms=1000, extra=""):
             % (tier, seed, mod, tickms, extra, " ".join(invariants)))
 
 
+def vacuous(run, msg):
+    """A run that observed nothing is an infrastructure error - unless what it did observe are violations of the
+    property (e.g. every child process died): those are reported."""
+    if not run.viols:
+        raise Infra(msg)
+    log("NOTE: %s - reporting the violations that were observed" % msg)
+
+
 def headers_of(trace_files, ids):
     """id -> header event of the scenario, for the violating ids."""
     out = {}
@@ -131,7 +139,7 @@ def query_check(run, gens, own_clauses, rule, assumptions, ops=False, mc=None, r
     run.cov["samples"] = sample_headers(traces)
     run.cov["scenario_stats"] = st
     if st.get("sc", 0) == 0 or st.get("sc", 0) - st.get("skipped", 0) <= 0:
-        raise Infra("vacuous run: no scenario was executed natively")
+        vacuous(run, "vacuous run: no scenario was executed natively")
     return vlib.finish(run, "model_checking", rule, assumptions,
                        distinct_nontrivial=st.get("calibrated", 0), exhaustive=False)
 
@@ -286,7 +294,7 @@ def c19(run):
     run.cov["scenario_stats"] = st
     executed = st.get("sc", 0) - st.get("skipped", 0)
     if executed <= 0:
-        raise Infra("vacuous run")
+        vacuous(run, "vacuous run")
     return vlib.finish(run, "model_checking",
                        rule=("Every result produced - by the plain engine, and for Gen_WF and a fifth of the rest also by the distributed engine - for the scenarios of all query generators (TLC), of the random generator and of the dedicated "
                              "family Gen_WF.tla (magnitudes of 1e308 overflowing to Inf, denormals, selectors whose name-dropping makes series "
@@ -319,7 +327,7 @@ def c18(run):
     run.cov["stream_stats"] = st
     run.cov["traces_validated_against_impl"] = st.get("plans", 0)
     if st.get("nexts", 0) == 0 or st.get("ops", 0) == 0:
-        raise Infra("vacuous run: no operator event recorded (hook H1 not active?)")
+        vacuous(run, "vacuous run: no operator event recorded (hook H1 not active?)")
     return vlib.finish(run, "model_checking",
                        rule=("Volcano.tla model-checked (stream contract and alignment on every edge of every topology). Every operator of "
                              "every physical plan built for the scenarios of all query generators (TLC), Gen_WF and random ones is wrapped at "
@@ -345,7 +353,7 @@ def c09(run):
     traces = vlib.replay(run, binary, "optim", scs, "op", chunks=chunks)
     st = session_validate(run, traces, lambda clause, fam: ["C09"] if clause == "Agree" else ([run.prop, "C13"] if clause == "ProcessDead" else []))
     if st.get("obs", 0) == 0:
-        raise Infra("vacuous run")
+        vacuous(run, "vacuous run")
     return vlib.finish(run, "model_checking",
                        rule=("Optimizer.tla (MergeSelects heap / subset test / filter derivation / in-engine filter, PropagateMatchers union) is "
                              "model-checked exhaustively over every ordered pair of selectors built from <= 2 matchers of the tier's alphabet "
@@ -371,7 +379,7 @@ def c16(run):
     traces = vlib.replay(run, binary, "hints", scs, "h", chunks=chunks)
     st = session_validate(run, traces, lambda clause, fam: ["C16"] if clause == "Agree" else ([run.prop, "C13"] if clause == "ProcessDead" else []))
     if st.get("obs", 0) == 0:
-        raise Infra("vacuous run")
+        vacuous(run, "vacuous run")
     return vlib.finish(run, "model_checking",
                        rule=("Hints.tla derives the select hints twice - path based as the reference engine does, and top-down as the engine's "
                              "plan construction does - and TLC checks for every plan wrap3(wrap2(wrap1(leaf))) over 9 leaves (offset, @ literal, "
@@ -408,7 +416,7 @@ def c10(run):
     traces = vlib.replay(run, binary, "dist", scs, "d", chunks=chunks)
     st = session_validate(run, traces, lambda clause, fam: ["C10"] if clause == "Agree" else ([run.prop, "C13"] if clause == "ProcessDead" else []))
     if st.get("obs", 0) == 0:
-        raise Infra("vacuous run")
+        vacuous(run, "vacuous run")
     return vlib.finish(run, "model_checking",
                        rule=("Distribute.tla transcribes the optimizer's bottom-up traversal (innermost distributive aggregation pushed down with "
                              "count->sum, other distributive chains wrapped in coalesce(remote), binary expressions and non-distributive "
@@ -470,7 +478,7 @@ def c08(run):
     run.cov["samples"] = [{"query": s.get("q")} for s in scs[:5]]
     run.cov["fallback_stats"] = st
     if st.get("native", 0) == 0 or st.get("fallback", 0) == 0 or st.get("rejected", 0) == 0:
-        raise Infra("vacuous run: a path was never taken: %s" % st)
+        vacuous(run, "vacuous run: a path was never taken: %s" % st)
     return vlib.finish(run, "model_checking",
                        rule=("Fallback.tla (creation outcome as a function of the expression and the fallback switch; counters) model-checked. "
                              "Gen_Fallback.tla enumerates the complete vocabulary emitted from the pinned parser at check time (every function of "
@@ -495,7 +503,7 @@ def c11(run):
     traces = vlib.replay(run, binary, "config", scs, "cf", chunks=chunks, j=max(1, vlib.NCPU // 4))
     st = session_validate(run, traces, lambda clause, fam: ["C11"] if clause == "Agree" else ([run.prop, "C13"] if clause == "ProcessDead" else []))
     if st.get("obs", 0) == 0:
-        raise Infra("vacuous run")
+        vacuous(run, "vacuous run")
     return vlib.finish(run, "model_checking",
                        rule=("Shards.tla: for all n <= 40 series and N <= 8 shards the shard slices partition the series and the re-based IDs are "
                              "an order-preserving bijection (TLC, exhaustive). Scenarios with 0..40 series (every remainder of n mod shards) over a "
@@ -523,7 +531,7 @@ def c20(run):
     st = session_validate(run, traces, lambda clause, fam: ["C20"] if clause in ("Agree", "ReturnedResultsImmutable") else ([run.prop, "C13"] if clause == "ProcessDead" else []))
     run.cov["samples"] = [{"history": s["cfg"]["hist"][:12]} for s in scs[:2]]
     if st.get("obs", 0) == 0 or st.get("snaps", 0) == 0:
-        raise Infra("vacuous run")
+        vacuous(run, "vacuous run")
     return vlib.finish(run, "model_checking",
                        rule=("TLC -simulate walks Session.tla (operations: execute one of 14 queries - native, failing with many-to-many, falling "
                              "back, subquery - over 3 windows, plainly or with the context cancelled before/during execution; append samples, a "
@@ -629,7 +637,7 @@ def fault_check(run, rule_extra, assumptions):
     run.cov["fault_stats"] = st
     run.cov["evaluations"] = st.get("runs", 0)
     if st.get("runs", 0) == 0 or st.get("fired", 0) == 0:
-        raise Infra("vacuous run: no fault fired: %s" % st)
+        vacuous(run, "vacuous run: no fault fired: %s" % st)
     return vlib.finish(run, "fault_enumeration",
                        rule=(("Exec.tla (Exec loop, coalesce fan-out, concurrency operators with pull and drain goroutines and bounded buffers, "
                               "context, one failing storage read) is model-checked by TLC for every interleaving and every cancellation point: no "
@@ -695,7 +703,7 @@ def c12(run):
     st = session_validate(run, traces, lambda clause, fam: ["C12"] if clause in ("Agree", "RaceFree") else ([run.prop, "C13"] if clause == "ProcessDead" else []))
     run.cov["samples"] = [{"mix": s["cfg"]["mix"], "clients": s["cfg"]["k"], "rounds": s["cfg"]["rounds"]} for s in scs[:3]]
     if st.get("obs", 0) == 0:
-        raise Infra("vacuous run")
+        vacuous(run, "vacuous run")
     return vlib.finish(run, "model_checking",
                        rule=("Gen_Conc.tla enumerates client mixes (2..32 clients; all the same text / a 13-query native basket / native and "
                              "fallback mixed / through a distributed engine sharing two remote engines; instant or range; 1 or 3 rounds; "
@@ -719,7 +727,7 @@ def c07(run):
     traces = vlib.replay(run, binary, "rangeinstant", scs, "ri", chunks=chunks)
     st = session_validate(run, traces, lambda clause, fam: [run.prop] if clause == "Agree" else (["C13", run.prop] if clause == "ProcessDead" else []))
     if st.get("obs", 0) == 0:
-        raise Infra("vacuous run: no observation")
+        vacuous(run, "vacuous run: no observation")
     return vlib.finish(run, "model_checking",
                        rule=("Volcano.tla (batch mechanics: cursors, batches of B steps, positional pairing of sibling batches, coalesce, "
                              "step-invariant replication, result assembly) is model-checked for every topology and 1..MaxN steps: stream "
